@@ -1555,6 +1555,7 @@ fn oracle_c10(plan: &ResolvePlan, obs: &Observations) -> RunResult {
                 });
             res.violations.push(
                 Violation::new("c10.chain_shape")
+                    .fact("mode", plan.knobs.mode.clone())
                     .fact("loop_reentered_inside_a_multi_link_upstream_reply", reentered_inside_reply)
                     .fact("upstream_alias_for_locally_owned_name", forged_local_alias)
                     .fact("upstream_reply_out_of_order", upstream_order)
